@@ -5,7 +5,8 @@ import json, os, re, shutil, subprocess, glob
 out_root = "/verif/seeded"
 rows = []
 for d in sorted(glob.glob("/tmp/mutants/C*/m[0-9]*")):
-    prop, k = d.split("/")[-2], d.split("/")[-1]
+    group, k = d.split("/")[-2], d.split("/")[-1]
+    prop = group.split("-")[0]
     ev = os.path.join(d, "eval.txt")
     if not os.path.exists(ev):
         continue
@@ -15,7 +16,7 @@ for d in sorted(glob.glob("/tmp/mutants/C*/m[0-9]*")):
         continue
     verdict, det, first = m.group(3), m.group(4), m.group(5).strip()
     applies = subprocess.run(["git", "-C", "/repo", "apply", "--check", os.path.join(d, "patch.diff")], capture_output=True).returncode == 0
-    sid = f"{prop}-{k}"
+    sid = f"{group}-{k}"
     if verdict != "valid":
         rows.append((sid, prop, verdict, det, applies, first))
         continue
@@ -35,7 +36,7 @@ for d in sorted(glob.glob("/tmp/mutants/C*/m[0-9]*")):
         "files": agent_meta.get("files"),
         "needs_to_manifest": agent_meta.get("needs_to_manifest"),
         "example_failing_input": agent_meta.get("example_failing_input"),
-        "validated_by_me": "tools/mutant_eval.sh in scratch worktree /tmp/wt/%s at /repo HEAD: patch applies; `cargo test --offline` fully green in one of at most three runs (the crate's randomized tests flake ~1/40 each on the unmodified tree); demo (cargo run --release --example) exits non-zero with the patch and 0 without" % prop,
+        "validated_by_me": "tools/mutant_eval.sh in scratch worktree /tmp/wt/%s (a worktree of /repo HEAD): patch applies; `cargo test --offline` fully green in one of at most three runs (the crate's randomized tests flake ~1/40 each on the unmodified tree); demo (cargo run --release --example) exits non-zero with the patch and 0 without" % prop,
         "patch_applies_to_repo_head": applies,
         "check_run": f"scratch copy of /verif/engine built against the patched worktree: vcheck {prop} quick (VERIF_SEED=0)",
         "detected": det == "DETECTED",
